@@ -9,10 +9,7 @@ From Coq Require Import ZArith List Bool Arith.
 From SP Require Import Model.Num Model.Arrow Model.Measures.
 Import ListNotations.
 
-(* a[i] = v on a numpy array WITHOUT bounds check (numba): an index inside the
-   array is written; an index past the end writes memory that does not belong
-   to the array and the array itself is unchanged.  [orient_writes_in_range]
-   below says when that does not happen. *)
+(* a[i] = v on a numpy array; the only use below writes indices < len(a) *)
 Fixpoint set_nth {A} (i : nat) (v : A) (l : list A) : list A :=
   match l, i with
   | [], _ => []
@@ -20,17 +17,14 @@ Fixpoint set_nth {A} (i : nat) (v : A) (l : list A) : list A :=
   | x :: t, S j => x :: set_nth j v t
   end.
 
-(* expected_ccw = np.zeros(len(ring_offsets) - 1, bool);
-   expected_ccw[polygon_offsets[:-1]] = True *)
+(* expected_ccw = np.zeros(len(ring_offsets) - 1, bool)
+   first_rings = polygon_offsets[:-1]
+   expected_ccw[first_rings[first_rings < num_rings]] = True *)
 Definition expected_ccw (poly_offs ring_offs : list nat) : list bool :=
-  fold_left (fun e p => set_nth p true e) (removelast poly_offs)
-            (repeat false (length ring_offs - 1)).
-
-(* every index written by the line above lies inside expected_ccw.  False
-   exactly when some polygon that is last in the ring buffer (or followed only
-   by empty ones) has no ring: the code then writes one byte past the array. *)
-Definition orient_writes_in_range (poly_offs ring_offs : list nat) : bool :=
-  forallb (fun p => Nat.ltb p (length ring_offs - 1)) (removelast poly_offs).
+  let num_rings := length ring_offs - 1 in
+  fold_left (fun e p => set_nth p true e)
+            (filter (fun p => Nat.ltb p num_rings) (removelast poly_offs))
+            (repeat false num_rings).
 
 (* areas[i] = compute_area(values, ring_offsets[i:i+2])   (doubled; sign and
    zero-ness are those of the halved float) *)
